@@ -2,6 +2,7 @@
   SfProofs.RdwrReopen — after an RDWR session is closed, a fresh read-only open sees exactly the final frames.
 -/
 import SfProofs.RdwrClose
+import SfProofs.RdwrWav
 namespace Sf
 
 /-- the handle was created by `sf_open (…, fmt, ch, sr)` on a new file (or a RAW one) -/
@@ -334,5 +335,66 @@ theorem RwView.reopen_rw_au {h : H} {s : Store} {R W F : Nat} {hdr D : List Byte
     rw [e, Nat.mul_div_cancel _ v.bw_pos]
   · rw [h9, hO, ← hlen]; simp
   · rw [h9, hO, List.length_append, hlen]; omega
+
+end Sf
+
+namespace Sf
+
+/-- WAV: when the data section ends on an even offset (no pad byte follows it) -/
+theorem RwView.reopen_rw_wav {h : H} {s : Store} {R W F : Nat} {hdr D : List Byte} (v : RwView h s R W F hdr D)
+    {fmt : Nat} {ch sr : Int} (cfg : CfgOf fmt ch sr h) (hc : h.container = .wav) (hsr : sr ≤ 0x7FFFFFFF)
+    (hguard : D.length < 0xFFFFFFFF) (heven : (hdrLenOf h + D.length) % 2 = 0)
+    (ix pos fmt0 : Nat) (ch0 sr0 : Int) (hraw : containerOf fmt0 ≠ some .raw) :
+    ∃ h' s', openHandle ix ⟨(closeHandle h s).bytes, pos⟩ .rw fmt0 ch0 sr0 = .ok h' s' ∧ ReopenedRw h F D h' s' := by
+  rw [v.close_wav hc]
+  have hpad : wavPadAt (hdrLenOf h + D.length) = [] := by unfold wavPadAt; rw [if_neg (by omega)]
+  rw [hpad]
+  simp only [List.length_nil, Nat.add_zero, List.append_nil]
+  have henc : encOf .wav (codecOf h.fmtWord) h.big = some h.enc := by
+    have := cfg.enc; rw [hc] at this; rw [cfg.fmtWord]; exact this
+  obtain ⟨hcodec, hnb⟩ := encOf_wav_facts henc
+  have hch : 1 ≤ h.ch ∧ h.ch ≤ 1024 := by rw [cfg.hch]; have := cfg.chr; omega
+  have hsr' : 1 ≤ h.sr ∧ h.sr ≤ 0x7FFFFFFF := by rw [cfg.hsr]; exact ⟨cfg.srr, hsr⟩
+  generalize hfl : ((hdrLenOf h + D.length : Nat) : Int) = fl
+  have himg : wavHdr_ct h.big (codecOf h.fmtWord) h.enc.nbytes h.ch h.sr F none true fl D.length ++ D =
+      wavChain h.big (codecOf h.fmtWord) (wavNb (codecOf h.fmtWord)) h.ch h.sr (wavFact h.big (codecOf h.fmtWord) F)
+        [] fl D.length D := by
+    rw [wavHdr_chain, hnb]; rfl
+  have hO : hdrLenOf h = 16 + wavFmtLen (codecOf h.fmtWord) + (wavFact h.big (codecOf h.fmtWord) F).length + 0 + 8 := by
+    simp only [hdrLenOf, hc, wavHdrLen, v.peak, wavFact_length, wavFmtLen]
+    simp
+  have hparse := wavParse_chain_nopeak h.big (codecOf h.fmtWord) h.ch h.sr (wavFact h.big (codecOf h.fmtWord) F) []
+    fl D.length D hcodec hch (wavFact_shape _ _ _) rfl hguard (by simp) (by simp)
+  simp only [List.length_nil] at hparse
+  rw [← hO] at hparse
+  obtain ⟨hf1, hf2⟩ := wav_fmtWord_facts h.big _ hcodec
+  have hsrw : ((wrapU 32 h.sr : Nat) : Int) = h.sr := wrapU_of_range 32 h.sr (by omega) (by omega)
+  have hhl : (wavHdr_ct h.big (codecOf h.fmtWord) h.enc.nbytes h.ch h.sr F none true fl D.length).length = hdrLenOf h := by
+    rw [wavHdr_length _ _ _ _ _ _ _ _ _ (fun ps hp => by cases hp)]
+    simp only [hdrLenOf, hc, wavHdrLen, v.peak, wavHdrLen_ct, wavFmtLen]
+    simp
+  have hO0 : 0 < hdrLenOf h := by rw [hO]; omega
+  have hne : wavHdr_ct h.big (codecOf h.fmtWord) h.enc.nbytes h.ch h.sr F none true fl D.length ++ D ≠ [] := by
+    intro hc0
+    have := congrArg List.length hc0
+    rw [List.length_append, hhl] at this; simp at this; omega
+  rw [himg] at hne ⊢
+  obtain ⟨h', s', ho, hfr, h1, h2, h3, h4, h5, h6, h7, h8, h9⟩ :=
+    openHandle_rw_parsed ix _ pos fmt0 ch0 sr0 _ .wav h.enc hne hraw (by rw [parseAny_wav]; exact hparse) hf1
+      (by rw [hf2]; exact henc) (by simp only; rw [hsrw]; exact hsr'.1)
+  have hOl : hdrLenOf h' = hdrLenOf h := by
+    have e4 : codecOf h'.fmtWord = codecOf h.fmtWord := by rw [h4]; exact hf2
+    simp only [hdrLenOf, h3, hc, wavHdrLen, h5, v.peak, e4]
+    rfl
+  refine ⟨h', s', ho, ReopenedRw.of_open ho h1 h2 ?_ (by rw [h8, hOl]) h5 ?_ v.dlen ?_ ?_⟩
+  · rw [hfr]
+    have hN : D.length / (h.enc.nbytes * h.ch) = F := by
+      rw [v.dlen]; exact Nat.mul_div_cancel _ v.bw_pos
+    have e1 : ¬ (D.length < D.length) := by omega
+    simp only [e1, if_false]
+    exact (initFrames_plain (hdrLenOf h) D.length (h.enc.nbytes * h.ch) v.bw_pos).trans (by rw [hN])
+  · rw [h7]; simp
+  · rw [h9, hOl, ← himg, ← hhl]; simp
+  · rw [h9, hOl, ← himg, List.length_append, hhl]; omega
 
 end Sf
